@@ -323,6 +323,74 @@ def closed_pair_matrix(rng, n):
     return C
 
 
+def sparse_with_duplicates(C, fmt):
+    """scipy sparse *matrix* holding C with UN-SUMMED repeated (row, col) entries:
+    coo built from a transition list (one unit entry per count, the way assigns_to_counts builds it),
+    csr/csc assembled directly from (data, indices, indptr) with repeated, unsorted indices
+    (has_canonical_format False).  Non-integer or large entries are split in two halves."""
+    import scipy.sparse as sp
+    C = np.asarray(C)
+    n = len(C)
+    rows, cols, data = [], [], []
+    for i in range(n):
+        for j in range(n):
+            x = C[i, j]
+            if x == 0:
+                continue
+            if x == np.round(x) and 0 < x <= 60:
+                parts = [C.dtype.type(1)] * int(x)
+            else:
+                parts = [x / 2, x - x / 2]
+            rows += [i] * len(parts)
+            cols += [j] * len(parts)
+            data += parts
+    m = len(rows)
+    order = sorted(range(m), key=lambda k: (k * 7919 + 13) % max(m, 1))     # fixed scrambling
+    rows = np.array(rows, dtype=np.int32)[order]
+    cols = np.array(cols, dtype=np.int32)[order]
+    data = np.array(data, dtype=C.dtype)[order]
+    if fmt == 'coo':
+        A = sp.coo_matrix((data, (rows, cols)), shape=(n, n))
+    elif fmt in ('csr', 'csc'):
+        major, minor = (rows, cols) if fmt == 'csr' else (cols, rows)
+        o = np.argsort(major, kind='stable')
+        indptr = np.concatenate([[0], np.cumsum(np.bincount(major, minlength=n))]).astype(np.int32)
+        cls = sp.csr_matrix if fmt == 'csr' else sp.csc_matrix
+        A = cls((data[o], minor[o], indptr), shape=(n, n))
+    else:
+        raise ValueError(fmt)
+    assert np.array_equal(A.copy().toarray(), C) or np.allclose(A.copy().toarray(), C, rtol=1e-15, atol=0)
+    return A
+
+
+def walk_assignments(rng, n, length, ntraj=2):
+    """random state trajectories (a lazy random walk over a random strongly connected graph)"""
+    G = gen_matrix(rng, n, 'int-sparse') if n >= 2 else np.ones((1, 1))
+    P = G / G.sum(axis=1, keepdims=True)
+    out = []
+    for _ in range(ntraj):
+        s_ = int(rng.integers(0, n))
+        t = [s_]
+        for _ in range(length - 1):
+            s_ = int(rng.choice(n, p=P[s_]))
+            t.append(s_)
+        out.append(t)
+    return np.array(out, dtype=int)
+
+
+def counts_from_assignments(rng, n):
+    """(A, C): the coo_matrix that the real assigns_to_counts returns (repeated coordinates, not summed)
+    for random trajectories, and its dense value; retried until strongly connected"""
+    from enspara.msm.transition_matrices import assigns_to_counts
+    for _ in range(200):
+        a = walk_assignments(rng, n, int(rng.integers(12 * n, 40 * n)))
+        A = assigns_to_counts(a, lag_time=1, max_n_states=n)
+        C = np.asarray(A.copy().toarray())
+        if np.all(C.sum(axis=1) > 0) and strongly_connected(C):
+            return A, C
+    raise RuntimeError('no strongly connected count matrix from random walks')
+
+
 def count_pendants(C):
     """states with zero self count and exactly one partner (counts in either direction)"""
     n = len(C)
@@ -535,7 +603,7 @@ def case_dict(C, kind):
     return {'kind': kind, 'n': len(C), 'C': mat_bits(C)}
 
 
-def check_matrix(ctx, C, kind, m_py, m_c, sparse_fmt=None, int_dtype=False):
+def check_matrix(ctx, C, kind, m_py, m_c, sparse_fmt=None, int_dtype=False, prebuilt=None):
     """all checks for one matrix; m_py/m_c are the model results for both flavours"""
     from enspara.msm import builders
     import scipy.sparse as sp
@@ -667,15 +735,25 @@ def check_matrix(ctx, C, kind, m_py, m_c, sparse_fmt=None, int_dtype=False):
         if int_dtype and np.all(C == np.round(C)):
             arg = C.astype(np.int64)
             ctx.tag('mle-int-dtype')
-        if sparse_fmt:
-            arg = getattr(sp, sparse_fmt + '_matrix')(arg)
+        if sparse_fmt == 'coo+assigns' and prebuilt is not None:
+            arg = prebuilt.copy()
+            ctx.tag('mle-coo+assigns')
+        elif sparse_fmt and '+' in sparse_fmt:
+            arg = sparse_with_duplicates(arg, sparse_fmt.split('+')[0])
+            ctx.tag('mle-' + sparse_fmt)
+        elif sparse_fmt:
+            arg = getattr(sp, sparse_fmt.split('+')[0] + '_matrix')(arg)
             ctx.tag('mle-' + sparse_fmt)
         else:
             ctx.tag('mle-ndarray')
+        snap_arg = (type(arg).__name__, str(arg.dtype), np.asarray(arg.copy().toarray() if sp.issparse(arg) else arg).tobytes())
         try:
             with warnings.catch_warnings():
                 warnings.simplefilter('ignore')
                 Co, To, pio = builders.mle(arg)
+            if snap_arg != (type(arg).__name__, str(arg.dtype),
+                            np.asarray(arg.copy().toarray() if sp.issparse(arg) else arg).tobytes()):
+                ctx.violation('builders.mle modified the caller\'s matrix', dict(rep, via='builders.mle', fmt=sparse_fmt))
             To = np.asarray(To.toarray() if sp.issparse(To) else To, dtype=float)
             got = {'ok': (To, np.asarray(pio, dtype=float))}
         except AssertionError as e:
@@ -690,6 +768,23 @@ def check_matrix(ctx, C, kind, m_py, m_c, sparse_fmt=None, int_dtype=False):
             prob = validity_problem(*got['ok'])
             if prob:
                 ctx.violation('builders.mle: %s' % prob, r)
+            else:
+                # the quantifier says "dense or sparse": the sparse input is densified, estimated and
+                # re-wrapped, so the result must be the estimator's result on the dense counts and
+                # satisfy the same fixed-point / likelihood clauses for the counts that were passed in
+                dd = maxdiff(got['ok'], results['py']['ok'])
+                res = prinz_residual(C, *got['ok'])
+                L = loglik(C, got['ok'][0])
+                S = C + C.T
+                Lt = loglik(C, S / S.sum(axis=1, keepdims=True))
+                if dd > 1e-9:
+                    ctx.violation('builders.mle(%s input) differs from the estimator on the same counts by %.3g'
+                                  % (sparse_fmt or 'ndarray', dd), r)
+                elif res > TOL_RESID.get(kind, TOL_RESID_DEFAULT) and \
+                        prinz_residual(C, *results['py']['ok']) <= TOL_RESID.get(kind, TOL_RESID_DEFAULT):
+                    ctx.violation('builders.mle: Prinz self-consistency residual %.3g for the counts passed in' % res, r)
+                elif Lt > L + TOL_LOGL * (1 + abs(L)):
+                    ctx.violation('builders.mle: log-likelihood %.12g below the transpose estimate %.12g' % (L, Lt), r)
             compare_with_model(ctx, C, 'py', got, m_py, 'builders.mle', r, rerun=fimpl_rerun_py)
 
 
@@ -781,6 +876,15 @@ def plan(ctx):
                [[4, 2, 0], [1, 3, 4], [0, 1, 6]],                 # self-plus-one ends
                [[0, 90, 1, 0], [80, 5, 0, 0], [0, 1, 3, 4], [1, 0, 2, 6]]):       # nearly closed pair
         out.append((np.array(Cs, dtype=float), 'struct:hand', 'csr', True))
+    # sparse inputs with UN-SUMMED repeated (row, col) entries: coo from a transition list, csr/csc with
+    # has_canonical_format False (the dense oracle is .toarray() of a copy)
+    for r in range(ctx.n(9, 90)):
+        n = 2 + (r % 6)
+        kind = ['int-sparse', 'int-dense', 'zero-diag', 'real'][r % 4]
+        out.append((gen_matrix(ctx.rng, n, kind), kind, ['coo+dups', 'csr+dups', 'csc+dups'][r % 3], True))
+    for r in range(ctx.n(3, 30)):
+        A, C = counts_from_assignments(ctx.rng, 2 + (r % 5))
+        out.append((C.astype(float), 'assigns_to_counts', 'coo+assigns', True, A))
     # hand-picked edges
     out.append((np.array([[0., 1.], [1., 0.]]), 'zero-diag', 'csr', True))
     out.append((np.array([[0., 2.], [1., 0.]]), 'zero-diag', None, True))
@@ -805,17 +909,19 @@ def run(ctx):
     warn_site_check(ctx)
     cases = plan(ctx)
     reqs = []
-    for C, kind, fmt, intd in cases:
-        reqs.append(model_req(C, 'py'))
-        reqs.append(model_req(C, 'compiled'))
+    for case in cases:
+        reqs.append(model_req(case[0], 'py'))
+        reqs.append(model_req(case[0], 'compiled'))
     resp = ctx.driver(reqs)
     sweeps = []
-    for idx, (C, kind, fmt, intd) in enumerate(cases):
+    for idx, case in enumerate(cases):
+        C, kind, fmt, intd = case[:4]
+        prebuilt = case[4] if len(case) > 4 else None
         m_py = model_result(resp[2 * idx])
         m_c = model_result(resp[2 * idx + 1])
         if 'ok' in m_py:
             sweeps.append(m_py['n_iter'] + 1)
-        check_matrix(ctx, C, kind, m_py, m_c, sparse_fmt=fmt, int_dtype=intd)
+        check_matrix(ctx, C, kind, m_py, m_c, sparse_fmt=fmt, int_dtype=intd, prebuilt=prebuilt)
         if sum(1 for v in ctx.violations if v.get('key') is None) >= 25:
             # failing inputs are on record (the runner reports the smallest): no need to finish the sweep
             ctx.note('stopped_early_after_cases', idx + 1)
